@@ -771,9 +771,30 @@ func parseBatchPrep(s string) (vals []string, errN int, ok, cancels bool) {
 // itemIndex finds which item an exec/fallback argument belongs to (items of one batch visit carry
 // pairwise distinct payload tokens; generators guarantee it).
 func (rt *nodeRT) itemIndex(v int, arg any) int {
+	i, _ := rt.itemIndexClaim(v, arg, false)
+	return i
+}
+
+// itemIndexClaim: with claim, the attempt counter of the item found is read and incremented in the same critical section
+// (equal payloads executed by several workers at once must not be given the same position)
+func (rt *nodeRT) itemIndexClaim(v int, arg any, claim bool) (idx int, attempt int) {
 	tok := itemKey(arg)
 	rt.mu.Lock()
 	defer rt.mu.Unlock()
+	defer func() {
+		if claim && idx != 9999 {
+			if rt.battempts == nil {
+				rt.battempts = map[[2]int]int{}
+			}
+			attempt = rt.battempts[[2]int{v, idx}]
+			rt.battempts[[2]int{v, idx}] = attempt + 1
+		}
+	}()
+	idx = rt.itemIndexLocked(v, tok)
+	return idx, 0
+}
+
+func (rt *nodeRT) itemIndexLocked(v int, tok int) int {
 	first := -1
 	for i, t := range rt.itemTok[v] {
 		if t == tok {
@@ -910,14 +931,7 @@ func (e *runtimeEnv) buildBatchWith(b *batchImpl) *flyt.BatchNodeBuilder {
 		rt := b.rtx()
 		e := rt.env
 		v := rt.cur()
-		i := rt.itemIndex(v, arg)
-		rt.mu.Lock()
-		if rt.battempts == nil {
-			rt.battempts = map[[2]int]int{}
-		}
-		k := rt.battempts[[2]int{v, i}]
-		rt.battempts[[2]int{v, i}] = k + 1
-		rt.mu.Unlock()
+		i, k := rt.itemIndexClaim(v, arg, true)
 		e.record(fmt.Sprintf("be:%d:%d:%d:%d:%s", id, v, i, k, encVal(arg)))
 		if b.gate != nil {
 			b.gate(i, k)
